@@ -184,6 +184,7 @@ class Interp(ExprMixin, StmtMixin):
         if isinstance(f, Stub):
             if f.assumed:
                 self.assumed_used.add(f"{f.name}: {f.assumed}")
+            self.check_call_shape(getattr(f, "qualname", None), args, kwargs)
             return f.fn(self, path, args, kwargs)
         if isinstance(f, Closure):
             st = self.stubs.get(f.qualname)
@@ -191,6 +192,8 @@ class Interp(ExprMixin, StmtMixin):
                 if st.assumed:
                     self.assumed_used.add(f"{st.name}: {st.assumed}")
                 a2 = ([f.self_obj] if f.self_obj is not None else []) + list(args)
+                if f.self_obj is None:
+                    self.check_call_shape(f.qualname, args, kwargs)
                 return st.fn(self, path, a2, kwargs)
             if getattr(f, "memoised", False) and not getattr(f, "_no_stub", False):
                 h = self.hooks.get("memo_call")
@@ -274,6 +277,40 @@ class Interp(ExprMixin, StmtMixin):
                 return SSeq(0, lambda i: None, "gen")
             return concat_seqs(parts, "gen")
         return result
+
+    def check_call_shape(self, qualname, args, kwargs):
+        """A callee replaced by its contract is still *called*: the arguments of the call site must bind to the real signature
+        (otherwise CPython raises TypeError before the callee's body - and its contract - is ever reached)."""
+        if not qualname:
+            return
+        cache = self.__dict__.setdefault("_sig_cache", {})
+        if qualname not in cache:
+            try:
+                _m, chain, node = self.src.find_def(qualname)
+                cache[qualname] = node.args if isinstance(node, ast.FunctionDef) and not chain else None
+            except Exception:
+                cache[qualname] = None
+        a = cache[qualname]
+        if a is None or any(isinstance(x, _StarArgs) for x in args) or "$starstar" in kwargs:
+            return
+        pos = [p.arg for p in list(a.posonlyargs) + list(a.args)]
+        kwonly = [p.arg for p in a.kwonlyargs]
+        if len(args) > len(pos) and a.vararg is None:
+            raise PyRaise(TypeError, note=f"{qualname}() takes {len(pos)} positional arguments but {len(args)} were given")
+        bound = set(pos[:len(args)])
+        for k in kwargs:
+            if k in bound or k in [p.arg for p in a.posonlyargs]:
+                raise PyRaise(TypeError, note=f"{qualname}() got multiple values / positional-only argument {k!r}")
+            if k not in pos and k not in kwonly and a.kwarg is None:
+                raise PyRaise(TypeError, note=f"{qualname}() got an unexpected keyword argument {k!r}")
+            bound.add(k)
+        n_req = len(pos) - len(a.defaults)
+        for i, p in enumerate(pos):
+            if i < n_req and p not in bound:
+                raise PyRaise(TypeError, note=f"{qualname}() missing required argument {p!r}")
+        for p, d in zip(kwonly, a.kw_defaults):
+            if d is None and p not in bound:
+                raise PyRaise(TypeError, note=f"{qualname}() missing required keyword-only argument {p!r}")
 
     def bind_params(self, a: ast.arguments, args, kwargs, env, f, path):
         kwargs = dict(kwargs)
